@@ -47,6 +47,7 @@ func init() {
 			c.guard("SEQ.STACK.HEIGHT", s.ruleStack)
 			c.guard("SEQ.STACK.HEIGHT", s.ruleStackNested)
 			c.guard("SEQ.STACK.HEIGHT", s.ruleStackCombineBody)
+			c.guard("SEQ.STACK.HEIGHT", s.ruleStackRerun)
 			c.guard("SEQ.STACK.REC", s.ruleNoStaticRecursion)
 		},
 	})
